@@ -1,0 +1,60 @@
+//go:build verif
+
+// Inspection of the provider's queues for the buffer-ownership check. Add-only; nothing here
+// changes behaviour.
+
+package udpip
+
+import (
+	"fmt"
+
+	"github.com/scionproto/scion/router"
+)
+
+// VerifPoolDrain empties every queue that the provider can reach (the send queue of each
+// connection, the processor queues handed to Start and the internal link's own processing queue)
+// and returns their content by queue name. Only meaningful after Stop.
+func VerifPoolDrain(p router.UnderlayProvider) map[string][]*router.Packet {
+	u := p.(*provider)
+	u.mu.Lock()
+	defer u.mu.Unlock()
+	out := map[string][]*router.Packet{}
+	drain := func(name string, q chan *router.Packet) {
+		if q == nil {
+			return
+		}
+		for {
+			select {
+			case pkt, ok := <-q:
+				if !ok {
+					return
+				}
+				out[name] = append(out[name], pkt)
+			default:
+				return
+			}
+		}
+	}
+	for _, c := range u.allConnections {
+		drain("egress:"+c.name, c.queue)
+	}
+	var procQs []chan *router.Packet
+	for _, l := range u.allLinks {
+		switch l := l.(type) {
+		case *connectedLink:
+			procQs = l.procQs
+		case *detachedLink:
+			procQs = l.procQs
+		case *internalLink:
+			procQs = l.procQs
+			drain("ilproc", l.procQ)
+		}
+	}
+	for i, q := range procQs {
+		drain(fmt.Sprintf("proc:%d", i), q)
+	}
+	return out
+}
+
+// VerifPoolBatchSize returns the provider's batch size.
+func VerifPoolBatchSize(p router.UnderlayProvider) int { return p.(*provider).batchSize }
